@@ -3,7 +3,6 @@ package main
 import (
 	"context"
 	"fmt"
-	"path"
 	"strings"
 
 	"github.com/pentops/j5/gen/j5/list/v1/list_j5pb"
@@ -252,13 +251,15 @@ func coqDeclPackage(p *gPackage, im *Img) (term string, extra bool) {
 	for i, sv := range p.Services {
 		ms := make([]string, len(sv.Methods))
 		for k, m := range sv.Methods {
-			full := path.Join(sv.BasePath, m.Path)
 			resp := "None"
 			if !m.NoResp {
 				resp = "(Some " + props(m.Resp, [2]string{p.Pkg + ".service", m.Name + "Response"}) + ")"
 			}
 			ms[k] = fmt.Sprintf("{| df_name := %s; df_verb := %d; df_parts := %s; df_req := %s; df_resp := %s |}",
-				coqStr(m.Name), verbArm[strings.ToLower(m.Verb)], coqStrs(strings.Split(full, "/")),
+				coqStr(m.Name), verbArm[strings.ToLower(m.Verb)],
+				// the full path is computed by the model of Go's path.Join (cmpa's model/J5sWalk.v path_join, tied to the
+				// compiler by C02's streams) from the declared basePath and httpPath: sourcewalk/service.go resolvedPath
+				fmt.Sprintf("(split_on SLASH (J5sWalk.path_join %s %s))", coqStr(sv.BasePath), coqStr(m.Path)),
 				props(m.Req, [2]string{p.Pkg + ".service", m.Name + "Request"}), resp)
 		}
 		svcs[i] = fmt.Sprintf("(%s, [%s])", coqStr(sv.Name), strings.Join(ms, ";"))
